@@ -62,6 +62,13 @@ def run(repo: Repo, chk: Check):
         if dd is None:
             raise AnalysisError("get_code: num_lines has no single definition")
         nl_expr, nl_node = dd.value, dd.node
+    # one level of local names: lines = s.splitlines(); num_lines = len(lines)
+    if isinstance(nl_expr, ast.Call) and norm(nl_expr.func) == "len" and len(nl_expr.args) == 1 and isinstance(nl_expr.args[0], ast.Name) \
+            and nl_expr.args[0].id != sname:
+        dd = single_def(nl_expr.args[0].id, nl_node)
+        if dd is not None and dd.value is not None:
+            nl_expr = ast.parse(f"len({norm(dd.value)})", mode="eval").body
+            nl_node = dd.node
     t = norm(nl_expr)
     forms = {f"len({sname}.splitlines())": "splitlines", f"{sname}.count('\\n') + 1": "count", f"1 + {sname}.count('\\n')": "count"}
     ok_form = t in forms
@@ -69,14 +76,23 @@ def run(repo: Repo, chk: Check):
               f"num_lines is {t}, expected len({sname}.splitlines()) or {sname}.count('\\n') + 1 of the string stored under 'code'", {"expr": t}, where)
     chk.judge("R17.a", "generate_code:get_code:num_lines uses the final string", same_s(nl_node),
               f"the string {sname} is reassigned between computing num_lines and storing it under 'code'", None, where)
-    # num_bytes
+    # num_bytes: every combination of reaching definitions (plain and augmented) must give the formula
     nb = fields["num_bytes"]
-    nb_expr, nb_node = nb, rn.id
-    if isinstance(nb, ast.Name):
-        dd = single_def(nb.id, rn.id)
-        if dd is None:
-            raise AnalysisError("get_code: num_bytes has no single definition")
-        nb_expr, nb_node = dd.value, dd.node
+
+    def alternatives(name, nid, depth=0):
+        """[(list of (expr, node) summands)] for the value of *name* on entry to node nid."""
+        if depth > 6:
+            raise AnalysisError("get_code: num_bytes definition chain too deep")
+        out = []
+        for dd in rd.at(nid, name):
+            if dd.kind == "assign" and not dd.index and dd.value is not None:
+                out.append([(dd.value, dd.node)])
+            elif dd.kind == "aug" and isinstance(dd.value.op, ast.Add):
+                for alt in alternatives(name, dd.node, depth + 1):
+                    out.append(alt + [(dd.value.value, dd.node)])
+            else:
+                raise AnalysisError(f"get_code: definition of {name} has an unrecognised shape ({dd.kind})")
+        return out
 
     def resolver(at):
         def r(nm):
@@ -86,19 +102,39 @@ def run(repo: Repo, chk: Check):
             return dd.value if dd is not None else None
         return r
 
+    if isinstance(nb, ast.Name):
+        alts = alternatives(nb.id, rn.id)
+    else:
+        alts = [[(nb, rn.id)]]
+    if not alts:
+        raise AnalysisError("get_code: num_bytes has no definition")
     try:
-        got = lin(nb_expr, resolver(nb_node))
         exp_c, exp_k = lin(nl_expr, resolver(nl_node))
         exp = dict(exp_c)
         exp[f"len({sname})"] = exp.get(f"len({sname})", 0) + 1
         exp_k -= 1
-        ok = got == (exp, exp_k)
     except NotLinear:
-        got, ok = None, False
-    chk.judge("R17.b", "generate_code:get_code:num_bytes formula", ok and ok_form,
-              f"num_bytes = {norm(nb_expr)} does not normalise to len({sname}) + num_lines - 1 (got {got})", {"normal_form": got}, where)
-    chk.judge("R17.a", "generate_code:get_code:num_bytes uses the final string", same_s(nb_node),
-              f"the string {sname} is reassigned between computing num_bytes and storing it under 'code'", None, where)
+        exp, exp_k = None, None
+    for i, alt in enumerate(alts):
+        desc = " + ".join(norm(e) for e, _ in alt)
+        try:
+            tot, k = {}, 0
+            for e, nd in alt:
+                c1, k1 = lin(e, resolver(nd))
+                for a, v in c1.items():
+                    tot[a] = tot.get(a, 0) + v
+                k += k1
+            tot = {a: v for a, v in tot.items() if v != 0}
+            ok = (tot, k) == (exp, exp_k)
+            got = (tot, k)
+        except NotLinear:
+            ok, got = False, None
+        chk.judge("R17.b", f"generate_code:get_code:num_bytes formula [{desc}]", ok and ok_form,
+                  f"num_bytes = {desc} does not normalise to len({sname}) + num_lines - 1 (got {got})", {"normal_form": got}, where)
+        fresh = all(same_s(nd) for e, nd in alt if sname in {x.id for x in ast.walk(e) if isinstance(x, ast.Name)} or
+                    any(isinstance(x, ast.Name) and x.id != sname and single_def(x.id, nd) is not None for x in ast.walk(e)))
+        chk.judge("R17.a", f"generate_code:get_code:num_bytes uses the final string [{desc}]", fresh,
+                  f"the string {sname} is reassigned between computing num_bytes ({desc}) and storing it under 'code'", None, where)
     # num_registers
     nr = fields["num_registers"]
     nr_expr = nr
